@@ -632,6 +632,11 @@ func (r *resolver) expandUses(parent HasDataDefinitions, u *Uses) ([]Definition,
 	// copy in any actions or notifications unresolved, they will be resolved
 	// in caller loop
 	for _, a := range g.Actions() {
+		if on, err := checkFeature(a); err != nil {
+			return nil, err
+		} else if !on {
+			continue
+		}
 		hasActions, validActions := parent.(HasActions)
 		if !validActions {
 			return nil, fmt.Errorf("cannot add %s. %s does not allow actions", u.ident, SchemaPath(u))
@@ -645,6 +650,11 @@ func (r *resolver) expandUses(parent HasDataDefinitions, u *Uses) ([]Definition,
 		}
 	}
 	for _, a := range g.Notifications() {
+		if on, err := checkFeature(a); err != nil {
+			return nil, err
+		} else if !on {
+			continue
+		}
 		hasNotifs, validNotifs := parent.(HasNotifications)
 		if !validNotifs {
 			return nil, fmt.Errorf("cannot add %s. %s does not allow notifications", u.ident, SchemaPath(u))
@@ -973,6 +983,11 @@ func (r *resolver) expandAugment(y *Augment, parent Meta) error {
 	}
 
 	for _, orig := range y.Actions() {
+		if on, err := checkFeature(orig); err != nil {
+			return err
+		} else if !on {
+			continue
+		}
 		if _, allowed := target.(HasActions); !allowed {
 			return fmt.Errorf("%s - cannot add action %s, %s does not allow actions", SchemaPath(y), orig.Ident(), y.ident)
 		}
@@ -986,6 +1001,11 @@ func (r *resolver) expandAugment(y *Augment, parent Meta) error {
 	}
 
 	for _, orig := range y.Notifications() {
+		if on, err := checkFeature(orig); err != nil {
+			return err
+		} else if !on {
+			continue
+		}
 		if _, allowed := target.(HasNotifications); !allowed {
 			return fmt.Errorf("%s - cannot add notification %s, %s does not allow notifications", SchemaPath(y), orig.Ident(), y.ident)
 		}
